@@ -16,8 +16,9 @@
       fixed_encoding size su bs := bs = be_loop size su /\ len bs = size /\ Forall is_byte bs
                                    /\ from_be_signed bs = su      (sign-extended two's complement)
       dec_eq (c1,e1) (c2,e2)    := c1*10^e1 = c2*10^e2  (stated over Z by scaling with the smaller exponent) *)
-From Coq Require Import String.
-From FA Require Import model.Base model.Logical proofs.LogicalProofs.
+From Coq Require Import String Lia.
+From FA Require Import model.Base model.Logical model.LogicalOld model.LogicalPos
+                       proofs.LogicalProofs proofs.LogicalOldProofs proofs.LogicalPosProofs.
 Open Scope Z_scope.
 
 (** ** date: days from 1970-01-01, for every date 0001-01-01 .. 9999-12-31 (ordinals 1 .. 3652059) *)
@@ -141,21 +142,19 @@ Theorem C16_decimal_bytes : forall precision scale sign ds exp,
 Proof. exact decimal_bytes_ok. Qed.
 Print Assumptions C16_decimal_bytes.
 
-(** ** decimal as fixed.
-    FULL statement, proved for the REPAIRED function [write_fixed_decimal_fixed]
-    (= the code plus "raise ValueError when bits_req > 8*size" and "if sign and unscaled_datum:"):
-    exactly [size] bytes, the sign-extended two's complement of the unscaled integer, iff it fits;
-    an error otherwise. *)
+(** ** decimal as fixed ([write_fixed_decimal] = prepare_fixed_decimal as it is in /repo, then write_fixed's
+    length check): exactly [size] bytes, the sign-extended two's complement of the unscaled integer,
+    iff it fits; an error otherwise.  Negative zero is zero. *)
 Theorem C16_decimal_fixed : forall precision scale size sign ds exp,
   Forall is_digit ds -> 0 <= size ->
   let su := signed sign (unscaled scale ds exp) in
   (len ds <= precision -> 0 <= exp + scale -> fits size su ->
-     exists bs, write_fixed_decimal_fixed precision scale size sign ds exp = Ok bs /\ fixed_encoding size su bs) /\
+     exists bs, write_fixed_decimal precision scale size sign ds exp = Ok bs /\ fixed_encoding size su bs) /\
   (len ds <= precision -> 0 <= exp + scale -> ~ fits size su ->
-     write_fixed_decimal_fixed precision scale size sign ds exp = Err) /\
-  (precision < len ds -> write_fixed_decimal_fixed precision scale size sign ds exp = Err) /\
-  (exp + scale < 0 -> write_fixed_decimal_fixed precision scale size sign ds exp = Err).
-Proof. exact decimal_fixed_repaired. Qed.
+     write_fixed_decimal precision scale size sign ds exp = Err) /\
+  (precision < len ds -> write_fixed_decimal precision scale size sign ds exp = Err) /\
+  (exp + scale < 0 -> write_fixed_decimal precision scale size sign ds exp = Err).
+Proof. exact decimal_fixed_ok. Qed.
 Print Assumptions C16_decimal_fixed.
 
 (** [fits] excludes the single representable value -2^(8 size-1) (bits_req = 8 size + 1); under a
@@ -167,47 +166,31 @@ Theorem C16_decimal_fixed_min_unreachable : forall precision scale size ds exp,
 Proof. exact min_value_unreachable. Qed.
 Print Assumptions C16_decimal_fixed_min_unreachable.
 
-(** The code AS IT IS NOW ([write_fixed_decimal]): the same statement holds for non-negative data
-    (sign = false) and for negative data with a non-zero magnitude that fits.
-    Missing with respect to the full statement: sign = true with u = 0 (negative zero) and
-    sign = true with a magnitude that does not fit -- both refuted below. *)
-Theorem C16_decimal_fixed_partial : forall precision scale size sign ds exp,
-  Forall is_digit ds -> 0 <= size ->
-  let u := unscaled scale ds exp in
-  let su := signed sign u in
-  (len ds <= precision -> 0 <= exp + scale -> fits size su -> (sign = false \/ u <> 0) ->
-     exists bs, write_fixed_decimal precision scale size sign ds exp = Ok bs /\ fixed_encoding size su bs) /\
-  (len ds <= precision -> 0 <= exp + scale -> ~ fits size su -> sign = false ->
-     write_fixed_decimal precision scale size sign ds exp = Err) /\
-  (precision < len ds -> write_fixed_decimal precision scale size sign ds exp = Err) /\
-  (exp + scale < 0 -> write_fixed_decimal precision scale size sign ds exp = Err).
-Proof. exact decimal_fixed_current. Qed.
-Print Assumptions C16_decimal_fixed_partial.
-
-(** F2: fixed size 1, decimal(2, 2), Decimal("-5"): unscaled -500 does not fit one byte, no error,
-    0x0C is stored and read back as 0.12 *)
-Theorem C16_decimal_fixed_refuted_current :
+(** The converter BEFORE the repair eff0ba2 ([write_fixed_decimal_old], model/LogicalOld.v) did not
+    satisfy the statement.  F2: fixed size 1, decimal(2, 2), Decimal("-5"): unscaled -500 does not fit
+    one byte, no error, 0x0C is stored and read back as 0.12 *)
+Theorem C16_decimal_fixed_refuted_old :
   exists precision scale size sign ds exp bs,
     Forall is_digit ds /\ len ds <= precision /\ 0 <= exp + scale /\
     10 ^ precision <= 2 ^ (8 * size - 1) /\
     ~ fits size (signed sign (unscaled scale ds exp)) /\
-    write_fixed_decimal precision scale size sign ds exp = Ok bs /\
+    write_fixed_decimal_old precision scale size sign ds exp = Ok bs /\
     from_be_signed bs <> signed sign (unscaled scale ds exp) /\
     read_decimal precision scale bs = Ok (12, -2).
-Proof. exact decimal_fixed_refuted_overflow. Qed.
-Print Assumptions C16_decimal_fixed_refuted_current.
+Proof. exact decimal_fixed_old_refuted_overflow. Qed.
+Print Assumptions C16_decimal_fixed_refuted_old.
 
-(** negative zero: fixed size 2, decimal(4, 2), Decimal("-0"): 0xFFFE (-2) is stored, read back as -0.02 *)
-Theorem C16_decimal_fixed_negzero_refuted_current :
+(** old code, negative zero: fixed size 2, decimal(4, 2), Decimal("-0"): 0xFFFE (-2) stored, read back as -0.02 *)
+Theorem C16_decimal_fixed_negzero_refuted_old :
   exists precision scale size sign ds exp bs,
     Forall is_digit ds /\ len ds <= precision /\ 0 <= exp + scale /\
     10 ^ precision <= 2 ^ (8 * size - 1) /\
     fits size (signed sign (unscaled scale ds exp)) /\
-    write_fixed_decimal precision scale size sign ds exp = Ok bs /\
+    write_fixed_decimal_old precision scale size sign ds exp = Ok bs /\
     from_be_signed bs <> signed sign (unscaled scale ds exp) /\
     read_decimal precision scale bs = Ok (-2, -2).
-Proof. exact decimal_fixed_refuted_negzero. Qed.
-Print Assumptions C16_decimal_fixed_negzero_refuted_current.
+Proof. exact decimal_fixed_old_refuted_negzero. Qed.
+Print Assumptions C16_decimal_fixed_negzero_refuted_old.
 
 (** ** never altered: whatever is written without an error reads back as a number equal to the
     datum (including negative zero and positive exponents); a successful write implies the
@@ -220,25 +203,109 @@ Theorem C16_decimal_never_altered_bytes : forall precision scale sign ds exp bs,
 Proof. exact bytes_never_altered. Qed.
 Print Assumptions C16_decimal_never_altered_bytes.
 
-(** FULL statement for fixed, proved for the REPAIRED function *)
 Theorem C16_decimal_never_altered : forall precision scale size sign ds exp bs,
   Forall is_digit ds -> 1 <= precision -> 0 <= size ->
-  write_fixed_decimal_fixed precision scale size sign ds exp = Ok bs ->
-  len ds <= precision /\ 0 <= exp + scale /\ fits size (signed sign (unscaled scale ds exp)) /\ len bs = size /\
-  exists d, read_decimal precision scale bs = Ok d /\ dec_eq d (dec_of_tuple sign ds exp).
-Proof. exact fixed_never_altered_repaired. Qed.
-Print Assumptions C16_decimal_never_altered.
-
-(** the code as it is: holds for non-negative data, and for negative data that is non-zero and fits
-    (full statement above; counterexamples: the two [_refuted_current] theorems) *)
-Theorem C16_decimal_never_altered_partial : forall precision scale size sign ds exp bs,
-  Forall is_digit ds -> 1 <= precision -> 0 <= size ->
-  (sign = false \/ (unscaled scale ds exp <> 0 /\ fits size (signed sign (unscaled scale ds exp)))) ->
   write_fixed_decimal precision scale size sign ds exp = Ok bs ->
   len ds <= precision /\ 0 <= exp + scale /\ fits size (signed sign (unscaled scale ds exp)) /\ len bs = size /\
   exists d, read_decimal precision scale bs = Ok d /\ dec_eq d (dec_of_tuple sign ds exp).
-Proof. exact fixed_never_altered_current. Qed.
-Print Assumptions C16_decimal_never_altered_partial.
+Proof. exact fixed_never_altered. Qed.
+Print Assumptions C16_decimal_never_altered.
+
+(** ** exact inverse, every logical type, every well-formed Python object, every process time zone [mk]:
+    reading what the writer stored gives the NORMAL FORM of the datum (model/LogicalPos.v [normal_form]:
+    the date itself; the time truncated to the unit; the UTC datetime at the truncated instant; the naive
+    datetime truncated; the 128 bits; the decimal rounded to the precision, which [C16_decimal_normal_form_equal]
+    shows to be the same number) -- and [Err] exactly where the writer or the reader raises (a date outside
+    0001..9999, an instant whose UTC image is outside the datetime range, too many digits, too many
+    fractional digits, a value that does not fit the fixed size, a Python object of another kind). *)
+Theorem C16_exact_inverse : forall mk l x, wf_lval x ->
+  (let* r := prepare mk l x in readl l r) = normal_form mk l x.
+Proof. exact exact_inverse. Qed.
+Print Assumptions C16_exact_inverse.
+
+Theorem C16_decimal_normal_form_equal : forall precision scale sg ds e,
+  Forall is_digit ds -> 1 <= precision -> len ds <= precision -> 0 <= e + scale ->
+  match dec_nf precision scale (su_of scale sg ds e) with
+  | LDecV c k => dec_eq (c, k) (dec_of_tuple sg ds e)
+  | _ => False
+  end.
+Proof. exact decimal_nf_equal. Qed.
+Print Assumptions C16_decimal_normal_form_equal.
+
+(** ** the process time zone.  [mk] = time.mktime of the process (wall-clock seconds -> epoch seconds).
+    The stored value does not depend on it unless the datum is a naive datetime under timestamp-*: *)
+Theorem C16_tz_independent : forall mk1 mk2 l x, tz_free l x -> prepare mk1 l x = prepare mk2 l x.
+Proof. exact tz_independent. Qed.
+Print Assumptions C16_tz_independent.
+
+(** an aware datetime is stored as a function of its UTC instant (wall - utcoffset) only: any two data
+    with the same instant -- any offsets, zero included -- in any two process zones give the same long *)
+Theorem C16_tz_aware_instant_only : forall mk1 mk2 w1 o1 w2 o2, w1 - o1 = w2 - o2 ->
+  prepare mk1 LTsMillis (LAware w1 o1) = prepare mk2 LTsMillis (LAware w2 o2) /\
+  prepare mk1 LTsMillis (LAware w1 o1) = Ok (RInt ((w1 - o1) / 1000)) /\
+  prepare mk1 LTsMicros (LAware w1 o1) = prepare mk2 LTsMicros (LAware w2 o2) /\
+  prepare mk1 LTsMicros (LAware w1 o1) = Ok (RInt (w1 - o1)).
+Proof. exact aware_instant_only. Qed.
+Print Assumptions C16_tz_aware_instant_only.
+
+(** local-timestamp-*: a function of the wall clock only (naive, or aware with any offset), in any zone *)
+Theorem C16_tz_local_wall_only : forall mk1 mk2 x1 x2 w, wall_of x1 = Some w -> wall_of x2 = Some w ->
+  prepare mk1 LLocalTsMillis x1 = prepare mk2 LLocalTsMillis x2 /\
+  prepare mk1 LLocalTsMillis x1 = Ok (RInt (w / 1000)) /\
+  prepare mk1 LLocalTsMicros x1 = prepare mk2 LLocalTsMicros x2 /\
+  prepare mk1 LLocalTsMicros x1 = Ok (RInt w).
+Proof. exact local_wall_only. Qed.
+Print Assumptions C16_tz_local_wall_only.
+
+(** naive data under timestamp-*: read as UTC when the process zone is UTC (the property's restriction);
+    in a zone at offset [off] the stored value moves by it -- which is why the restriction is there *)
+Theorem C16_tz_naive : forall w,
+  (prepare (fun s => s) LTsMillis (LNaive w) = prepare (fun s => s) LTsMillis (LAware w 0) /\
+   prepare (fun s => s) LTsMicros (LNaive w) = prepare (fun s => s) LTsMicros (LAware w 0)) /\
+  (forall off, prepare (fun s => s - off) LTsMicros (LNaive w) = Ok (RInt (w - off * 1000000))).
+Proof. intros w. split; [apply naive_utc|intros off; apply naive_other_zone]. Qed.
+Print Assumptions C16_tz_naive.
+
+(** ** positions.  [trav leaf] (model/LogicalPos.v) is write_data / read_data reduced to where the
+    annotations are: it applies [leaf] at every annotated node and recurses through array items, map
+    values, the union branch, record fields and by-name references.  Construction commutes with it: *)
+Theorem C16_positions_equations : forall A B (leaf : ltype -> A -> res B) f env,
+  (forall l a, trav leaf (S f) env (SLogical l) (TLeaf a) = let* b := leaf l a in Ok (TLeaf b)) /\
+  (forall s l, trav leaf (S f) env (SArrayOf s) (TList l) = let* l' := mapM (trav leaf f env s) l in Ok (TList l')) /\
+  (forall s kv, trav leaf (S f) env (SMapOf s) (TMap kv) =
+     let* kv' := mapM (fun p => let* v := trav leaf f env s (snd p) in Ok (fst p, v)) kv in Ok (TMap kv')) /\
+  (forall bs b i v, nth_branch bs i = Some b ->
+     trav leaf (S f) env (SUnionOf bs) (TBranch i v) = let* v' := trav leaf f env b v in Ok (TBranch i v')) /\
+  (forall fs l, trav leaf (S f) env (SRecordOf fs) (TRec l) = let* l' := zipM (trav leaf f env) fs l in Ok (TRec l')) /\
+  (forall n s t, lookup_l env n = Some s -> trav leaf (S f) env (SNamed n) t = trav leaf f env s t).
+Proof.
+  intros A B leaf f env. repeat split; try reflexivity.
+  - intros bs b i v H. cbn [trav]. rewrite H. reflexivity.
+  - intros n s t H. rewrite trav_named, H. reflexivity.
+Qed.
+Print Assumptions C16_positions_equations.
+
+(** reading a written structure = the same structure with (read after write) at EVERY annotated position,
+    for any pair of leaf converters, any schema, any nesting, any references (induction over the traversal) *)
+Theorem C16_positions_fuse : forall A B C (g : ltype -> A -> res B) (h : ltype -> B -> res C) fuel env s t w,
+  trav g fuel env s t = Ok w ->
+  trav h fuel env s w = trav (fun l x => let* y := g l x in h l y) fuel env s t.
+Proof. intros A B C g h fuel. exact (trav_fuse g h fuel). Qed.
+Print Assumptions C16_positions_fuse.
+
+(** with the leaf theorem: whatever is written, at whatever position, reads back as its normal form there *)
+Theorem C16_positions : forall mk fuel env s v w,
+  all_leaves wf_lval v ->
+  write_tree mk fuel env s v = Ok w ->
+  read_tree fuel env s w = normal_tree mk fuel env s v.
+Proof. exact positions. Qed.
+Print Assumptions C16_positions.
+
+Theorem C16_positions_tz : forall mk1 mk2 fuel env s v,
+  all_leaves (fun x => forall l, tz_free l x) v ->
+  write_tree mk1 fuel env s v = write_tree mk2 fuel env s v.
+Proof. exact positions_tz. Qed.
+Print Assumptions C16_positions_tz.
 
 (** ** non-vacuity: the hypotheses are met by non-trivial instances *)
 Example C16_example_calendar :
@@ -265,14 +332,49 @@ Proof. unfold in_datetime_range. vm_compute. repeat split; discriminate. Qed.
     one digit too many; one fractional digit too many; 327.68 = 2^15 unscaled does not fit two bytes *)
 Example C16_example_decimal :
   prepare_bytes_decimal 4 2 true [1; 2; 8] (-2) = Ok [255; 128] /\
-  write_fixed_decimal_fixed 4 2 2 true [1; 2; 8] (-2) = Ok [255; 128] /\
   write_fixed_decimal 4 2 2 true [1; 2; 8] (-2) = Ok [255; 128] /\
+  write_fixed_decimal_old 4 2 2 true [1; 2; 8] (-2) = Ok [255; 128] /\
   read_decimal 4 2 [255; 128] = Ok (-128, -2) /\
   prepare_bytes_decimal 4 2 false [1] 2 = Ok [39; 16] /\
   prepare_bytes_decimal 4 2 false [1; 2; 3; 4; 5] (-2) = Err /\
   prepare_bytes_decimal 4 2 false [1; 2; 3] (-3) = Err /\
-  write_fixed_decimal_fixed 5 2 2 false [3; 2; 7; 6; 8] (-2) = Err /\
   write_fixed_decimal 5 2 2 false [3; 2; 7; 6; 8] (-2) = Err /\
-  write_fixed_decimal_fixed 4 2 2 true [0] 0 = Ok [0; 0] /\
-  write_fixed_decimal_fixed 2 2 1 true [5] 0 = Err.
+  write_fixed_decimal_old 5 2 2 false [3; 2; 7; 6; 8] (-2) = Err /\
+  write_fixed_decimal 4 2 2 true [0] 0 = Ok [0; 0] /\
+  write_fixed_decimal 2 2 1 true [5] 0 = Err.
+Proof. vm_compute. repeat split. Qed.
+
+(** positions: {"k": date} under map<date>; [{"k": Decimal("-1.28")}] under array<map<F>> with the fixed decimal F
+    by name; a record with a union branch; the value read back is converted at every position, and an
+    unconverted map value (what seed C16_r4_2 returned) is not what the reader gives *)
+Example C16_example_positions :
+  let id := fun s : Z => s in
+  let F := LDecFixed 4 2 2 in
+  let env := [(7, SLogical F)] in
+  write_tree id 5 [] (SMapOf (SLogical LDate)) (TMap [(1, TLeaf (LDateV 1))]) = Ok (TMap [(1, TLeaf (RInt (-719162)))]) /\
+  read_tree 5 [] (SMapOf (SLogical LDate)) (TMap [(1, TLeaf (RInt (-719162)))]) = Ok (TMap [(1, TLeaf (LDateV 1))]) /\
+  write_tree id 5 env (SArrayOf (SMapOf (SNamed 7))) (TList [TMap [(1, TLeaf (LDecimalV true [1; 2; 8] (-2)))]])
+    = Ok (TList [TMap [(1, TLeaf (RBytes [255; 128]))]]) /\
+  read_tree 5 env (SArrayOf (SMapOf (SNamed 7))) (TList [TMap [(1, TLeaf (RBytes [255; 128]))]])
+    = Ok (TList [TMap [(1, TLeaf (LDecV (-128) (-2)))]]) /\
+  write_tree id 5 env (SRecordOf [SPlain; SUnionOf [SPlain; SLogical LTsMillis]])
+                      (TRec [TPlain 7; TBranch 1 (TLeaf (LAware (-1) 19800000000))])
+    = Ok (TRec [TPlain 7; TBranch 1 (TLeaf (RInt (-19800001)))]) /\
+  write_tree id 5 env (SMapOf (SNamed 7)) (TMap [(1, TLeaf (LDecimalV true [5] 2))]) = Err /\
+  all_leaves wf_lval (TList [TMap [(1, TLeaf (LDecimalV true [1; 2; 8] (-2)))]]).
+Proof.
+  cbv zeta. repeat (split; [vm_compute; reflexivity|]).
+  cbn [all_leaves allP snd wf_lval]. repeat split. repeat constructor; lia.
+Qed.
+
+(** the process time zone: Tokyo (mktime s = s - 9 h); an aware datum with offset exactly zero and the same instant
+    with +05:30 are stored alike; the local variants ignore the zone; a naive datum under timestamp-* does not *)
+Example C16_example_tz :
+  let jst := fun s : Z => s - 32400 in
+  prepare jst LTsMillis (LAware 1500 0) = Ok (RInt 1) /\
+  prepare jst LTsMillis (LAware (1500 + 19800000000) 19800000000) = Ok (RInt 1) /\
+  prepare jst LLocalTsMicros (LNaive (-1)) = Ok (RInt (-1)) /\
+  prepare jst LTsMicros (LNaive 0) = Ok (RInt (-32400000000)) /\
+  normal_form jst LTsMillis (LAware DT_MIN 1) = Err /\
+  normal_form jst LDate (LDateV 0) = Err.
 Proof. vm_compute. repeat split. Qed.
